@@ -130,6 +130,10 @@ def verify_all(reg, contracts, engine_cls=Engine, timeout_ms=10000, jobs=None, d
             results[o.name] = r2[o.name]
     for rep in reports:
         rep.results = {o.name: results[o.name] for o in rep.obligations}
+        bad = [o for o in rep.obligations if o.kind == "unreachable" and results[o.name]["verdict"] != "unsat"]
+        if bad and rep.status == "ok":
+            rep.status = "unsupported"
+            rep.detail = "construct outside the subset on a path that is not excluded by the precondition: " + bad[0].name.split("#")[-1]
     return reports
 
 
